@@ -108,7 +108,8 @@ func (v *variablesDefaultValueExtractionVisitor) EnterVariableDefinition(ref int
 	}
 
 	isListVariable := v.operation.TypeIsList(v.operation.VariableDefinitions[ref].Type)
-	if isListVariable && len(valueBytes) > 0 && valueBytes[0] != '[' {
+	// a single value is coerced to a list of one item, null stays null
+	if isListVariable && len(valueBytes) > 0 && valueBytes[0] != '[' && !bytes.Equal(valueBytes, []byte("null")) {
 		listWraps := v.operation.TypeNumberOfListWraps(v.operation.VariableDefinitions[ref].Type)
 		for range listWraps {
 			valueBytes = append([]byte{'['}, append(valueBytes, ']')...)
